@@ -10,7 +10,7 @@ mkdir -p /verif/.work/matrix
 for mut in "$@"; do
   tag=$(basename "$mut")
   git -C $W apply "$mut/patch.diff" || { echo "APPLY-FAILED" > /verif/.work/matrix/$tag.txt; continue; }
-  : > /verif/.work/matrix/$tag.txt
+  touch /verif/.work/matrix/$tag.txt   # results are appended; the meta generator takes the latest line per check
   for id in $ids; do
     out=$(cd $V && HMF_REPO=$W timeout 1500 ./check $id --tier quick 2>&1 | grep -E "^VIOLATION|^KNOWN|^C[0-9]+:|INFRA" | cut -c1-200 | tail -3 | tr '\n' ' ')
     echo "[$id] $out" >> /verif/.work/matrix/$tag.txt
